@@ -302,6 +302,30 @@ func TestVerif_C18_UnwrapOnce(t *testing.T) {
 			tok := tk.newTok
 			for tok != "" && chain < 6 {
 				chain++
+				// the right may travel further along a chain of rewraps; every generation reports the path that
+				// created the wrapped response, and the previous generation is dead
+				for hop, hops := 0, fairIndex(rt, "furtherRewraps", 3); hop < hops; hop++ {
+					rr2 := tc.req(logical.UpdateOperation, "sys/wrapping/rewrap", e.other, map[string]any{"token": tok})
+					if !rr2.ok() || rr2.resp == nil || rr2.resp.WrapInfo == nil {
+						break
+					}
+					prev := tok
+					tok = rr2.resp.WrapInfo.Token
+					rec.Class("rewrap-chain-hop", 1)
+					if cp := rr2.resp.WrapInfo.CreationPath; cp != creq.Path {
+						rec.Violation(rt, "lookup-wrong-path:after-rewrap", describe(), "the wrap info returned by rewrap number %d reports creation_path %q, the wrapped request was %q", hop+2, cp, creq.Path)
+					}
+					if lr := tc.req(logical.UpdateOperation, "sys/wrapping/lookup", e.other, map[string]any{"token": tok}); lr.ok() && lr.resp != nil {
+						if cp, _ := lr.resp.Data["creation_path"].(string); cp != creq.Path {
+							rec.Violation(rt, "lookup-wrong-path:after-rewrap", describe(), "lookup of the token produced by rewrap number %d reports creation_path %q, the wrapped request was %q", hop+2, cp, creq.Path)
+						}
+					} else {
+						rec.Violation(rt, "lookup-failed:after-rewrap", describe(), "sys/wrapping/lookup of a freshly rewrapped token failed: %v", lr)
+					}
+					if pr := tc.req(logical.UpdateOperation, "sys/wrapping/unwrap", e.other, map[string]any{"token": prev}); pr.ok() && containsCanary(pr.resp, canary) {
+						deliveries++
+					}
+				}
 				r := tc.req(logical.UpdateOperation, "sys/wrapping/unwrap", tok, nil)
 				if r.ok() && containsCanary(r.resp, canary) {
 					deliveries++
